@@ -31,6 +31,11 @@ CHECKS = {
    "DESIGN.md 6 C19",
    "Trusted: VC generator, go/types, solvers; yaml.v3; pathlib.OpenFile = POSIX open; reflect operations on static descriptors.",
    "contract-based deductive verification: field-wise postcondition and frame (sameExcept over go/types field list) on the real migrateConfig, call-site obligations and map-range loop invariants on run, z3/cvc5"),
+ "C18": ("proof",
+   "Call-site obligations on the real initRun, discharged for all inputs: the config file is opened exactly once, exclusively (O_RDWR|O_CREATE|O_EXCL, no O_TRUNC) at the path from --config or .mockery.yml, before anything is encoded; the single Encode happens only after that open succeeded (so, by POSIX O_EXCL, no file existed) and writes the RootConfig unmarshalled from config.NewDefaultKoanf plus packages = {arg: {config: {all: true, every other parameter unset}, interfaces: {}}}; no other file-system mutation is reachable (frame over the FS-mutator table); a failed open ends in exit(1) without a write. NewDefaultKoanf is proved to load the struct of defaults and no environment/file/flag provider. Partial: YAML quoting round-trip, loader acceptance and the subsequent run are library behaviour.",
+   "DESIGN.md 6 C18",
+   "Trusted: VC generator, go/types, solvers; POSIX O_EXCL contract of pathlib.OpenFile; yaml.v3 Encoder; koanf Load/Unmarshal; cobra.ExactArgs(1).",
+   "contract-based deductive verification: call-site (site) obligations with ghost call counters and an FS-effect frame on the real initRun, z3/cvc5"),
 }
 
 NOT_APPLICABLE = {
